@@ -2,7 +2,7 @@
 a scratch directory, with every write-side file-system operation (open for writing, write, close) routed
 through a counting proxy that raises OSError at the k-th operation.  Symbolic: the kind of every initializer
 (in-memory small / large / zero-size / scalar / uint8 / already-external in another file / already-external
-in the destination data file), the fault index k and verbose.  The proxies are the only stubs."""
+in the destination data file / owned by an If branch, large or small), the fault index k and verbose.  The proxies are the only stubs."""
 from __future__ import annotations
 
 import os
@@ -19,7 +19,7 @@ from vp import loader
 
 T, _INFO = loader.load_cut("onnxscript._framework_apis.torch_2_5")
 
-KINDS = ["small", "large", "zero", "scalar", "u8", "ext_other", "ext_dest"]
+KINDS = ["small", "large", "zero", "scalar", "u8", "ext_other", "ext_dest", "sub_large", "sub_small"]
 ARR = {
     "small": np.arange(3, dtype=np.float32),
     "large": (np.arange(400, dtype=np.float32) / 7).reshape(20, 20),
@@ -28,6 +28,9 @@ ARR = {
     "u8": (np.arange(300) % 251).astype(np.uint8),
     "ext_other": np.arange(100, dtype=np.float32) - 50,
     "ext_dest": np.arange(80, dtype=np.float32) * 3,
+    # initializers owned by the then-branch of an If node (above / below the 256-byte externalisation threshold)
+    "sub_large": np.arange(128, dtype=np.float32) * 0.5 - 7,
+    "sub_small": np.array([4, 5, 6], dtype=np.int64),
 }
 
 
@@ -111,6 +114,7 @@ def _snapshot(model):
 
 def build(kinds, d, dest_name):
     inits = []
+    sub_inits = []
     for i, k in enumerate(kinds):
         kind = KINDS[k]
         a = ARR[kind]
@@ -128,14 +132,35 @@ def build(kinds, d, dest_name):
             t = ir.ExternalTensor(dest_name, off, a.nbytes, ir.DataType.FLOAT, shape=ir.Shape(a.shape), name=name, base_dir=d)
         else:
             t = ir.tensor(a, name=name)
-        inits.append(ir.Value(name=name, type=ir.TensorType(t.dtype), shape=ir.Shape(a.shape), const_value=t))
+        v = ir.Value(name=name, type=ir.TensorType(t.dtype), shape=ir.Shape(a.shape), const_value=t)
+        (sub_inits if kind.startswith("sub_") else inits).append(v)
     x = ir.Value(name="x", type=ir.TensorType(ir.DataType.FLOAT), shape=ir.Shape([2]))
     nodes = []
     prev = x
     for i, v in enumerate(inits):
         n = ir.Node("", "Shape", [v], num_outputs=1, name=f"n{i}")
-        n.outputs[0].name = f"s{i}"
+        n.outputs[0].name = f"s_{v.name}"
         nodes.append(n)
+    if sub_inits:
+        def const_node(nm, arr):
+            c = ir.Node("", "Constant", [], attributes=[ir.AttrTensor("value", ir.tensor(arr))], num_outputs=1, name="c_" + nm)
+            c.outputs[0].name = nm
+            return c
+
+        cn = const_node("cond", np.array(True))
+        nodes.append(cn)
+        tn = []
+        for v in sub_inits:
+            n = ir.Node("", "Shape", [v], num_outputs=1, name=f"t_{v.name}")
+            n.outputs[0].name = f"ts_{v.name}"
+            tn.append(n)
+        then_g = ir.Graph([], [tn[0].outputs[0]], nodes=tn, initializers=sub_inits, name="then_g")
+        en = const_node("else_out", np.array([0], np.int64))
+        else_g = ir.Graph([], [en.outputs[0]], nodes=[en], name="else_g")
+        ifn = ir.Node("", "If", [cn.outputs[0]], attributes=[ir.AttrGraph("then_branch", then_g), ir.AttrGraph("else_branch", else_g)],
+                      num_outputs=1, name="if")
+        ifn.outputs[0].name = "if_out"
+        nodes.append(ifn)
     idn = ir.Node("", "Identity", [prev], num_outputs=1, name="id")
     idn.outputs[0].name = "y"
     idn.outputs[0].type = ir.TensorType(ir.DataType.FLOAT)
@@ -145,13 +170,23 @@ def build(kinds, d, dest_name):
     return ir.Model(g, ir_version=9)
 
 
+def _all_nodes(graph):
+    out = []
+    for n in graph:
+        out.append((n.op_type, [i.name for i in n.inputs], [o.name for o in n.outputs]))
+        for a in n.attributes.values():
+            if a.type == ir.AttributeType.GRAPH:
+                out.append(("<" + a.name, _all_nodes(a.value), [o.name for o in a.value.outputs]))
+    return out
+
+
 def save_real(kinds, fault_at, verbose, known_dest_ok=False):
     """Returns (ok, detail).  ok is the C20 predicate for this instance."""
     d = tempfile.mkdtemp(prefix="vp_c20_")
     try:
         path = os.path.join(d, "m.onnx")
         model = build(kinds, d, "m.onnx.data")
-        bytes_before = [ARR[KINDS[k]].tobytes() for k in kinds]
+        kind_of = {f"w{i}": KINDS[k] for i, k in enumerate(kinds)}
         snap = _snapshot(model)
         struct_before = ir.to_proto(model).SerializeToString()
         ops = _Ops(fault_at)
@@ -177,7 +212,8 @@ def save_real(kinds, fault_at, verbose, known_dest_ok=False):
         after = _snapshot(model)
         if len(after) != len(snap):
             return False, "initializer count changed"
-        for (k0, v0, t0, e0), (k1, v1, t1, e1), raw, kk in zip(snap, after, bytes_before, kinds):
+        for (k0, v0, t0, e0), (k1, v1, t1, e1) in zip(snap, after):
+            raw, kname = ARR[kind_of[k0]].tobytes(), kind_of[k0]
             if k0 != k1 or v0 is not v1:
                 return False, f"initializer {k0}: value object replaced"
             if t0 is not t1:
@@ -187,28 +223,28 @@ def save_real(kinds, fault_at, verbose, known_dest_ok=False):
             try:
                 now = t1.tobytes()
             except Exception as e:  # noqa: BLE001
-                return False, f"initializer {k0} ({KINDS[kk]}): tensor no longer readable after {outcome}: {type(e).__name__}: {e}"
+                return False, f"initializer {k0} ({kname}): tensor no longer readable after {outcome}: {type(e).__name__}: {e}"
             if now != raw:
-                return False, f"initializer {k0} ({KINDS[kk]}): bytes changed after {outcome}"
+                return False, f"initializer {k0} ({kname}): bytes changed after {outcome}"
         if ir.to_proto(model).SerializeToString() != struct_before:
             return False, "serialized structure of the in-memory model changed"
         if outcome == "ok":
             if not os.path.exists(path):
                 return False, "model file missing"
             loaded = ir.load(path)
-            li = list(loaded.graph.initializers.items())
-            if [k for k, _ in li] != [s[0] for s in snap]:
-                return False, "loaded initializer names differ"
-            for (k, v), raw, kk in zip(li, bytes_before, kinds):
+            li = [(k, v) for g_ in loaded.graphs() for k, v in g_.initializers.items()]
+            if [k for k, _ in li] != [s_[0] for s_ in snap]:
+                return False, f"loaded initializer names differ: {[k for k, _ in li]} vs {[s_[0] for s_ in snap]}"
+            for (k, v), s_ in zip(li, snap):
                 t = v.const_value
-                if t.tobytes() != raw:
-                    return False, f"loaded {k} ({KINDS[kk]}): bytes differ"
-                if t.dtype != snap[li.index((k, v))][2].dtype or tuple(t.shape.numpy()) != ARR[KINDS[kk]].shape:
+                kname = kind_of[k]
+                if t.tobytes() != ARR[kname].tobytes():
+                    return False, f"loaded {k} ({kname}): bytes differ"
+                if t.dtype != s_[2].dtype or tuple(t.shape.numpy()) != ARR[kname].shape:
                     return False, f"loaded {k}: dtype/shape differ"
                 if isinstance(t, ir.ExternalTensor) and (t.location != "m.onnx.data"):
                     return False, f"loaded {k}: stored in {t.location}, not the sibling data file"
-            a = [(n.op_type, [i.name for i in n.inputs], [o.name for o in n.outputs]) for n in model.graph]
-            b = [(n.op_type, [i.name for i in n.inputs], [o.name for o in n.outputs]) for n in loaded.graph]
+            a, b = _all_nodes(model.graph), _all_nodes(loaded.graph)
             if a != b or [i.name for i in loaded.graph.inputs] != ["x"] or [o.name for o in loaded.graph.outputs] != ["y"]:
                 return False, "loaded graph differs"
         return True, f"{outcome} ops={ops.n}"
@@ -261,4 +297,5 @@ def _ob(n, first=None):
     }
 
 
-OBLIGATIONS = [_ob(0), _ob(1)] + [_ob(2, k) for k in range(len(KINDS) - 1)] + [_ob(3, k) for k in range(len(KINDS) - 1)]
+_FIRST = [k for k in range(len(KINDS)) if KINDS[k] != "ext_dest"]  # ext_dest first: the whole slice is the recorded known region
+OBLIGATIONS = [_ob(0), _ob(1)] + [_ob(2, k) for k in _FIRST] + [_ob(3, k) for k in _FIRST]
